@@ -576,6 +576,7 @@ impl<'a> Gen<'a> {
             if self.p.name == "c09" { 2 } else if self.p.name == "c17" { 1 } else { 0 }, // fill the window, then a new QoS>0 subscription with retained matches
             2, // one batch: a publish matching a subscription of this client, then UNSUBSCRIBE of it
             if (self.p.name == "c03" || self.p.name == "c14") && !self.stalled { 1 } else { 0 }, // stalled consumer
+            if self.p.name == "c17" && !self.stalled && self.sims.len() >= 3 { 1 } else { 0 }, // group whose turn holder is blocked by a full window
         ];
         match self.rng.weighted(&w) {
             0 => {
@@ -731,6 +732,61 @@ impl<'a> Gen<'a> {
                     }
                 }
                 self.st.tag("stalled-consumer");
+            }
+            18 => {
+                // C17: three members of one group; the last one never acknowledges, so that it ends
+                // up holding the turn with a full window while the others are parked behind the
+                // next message; then a member that does NOT hold the turn leaves; then the blocked
+                // member acknowledges. The message must still reach a member.
+                self.stalled = true;
+                let ms: Vec<usize> = (0..self.sims.len()).filter(|&k| self.sims[k].alive && self.sims[k].id.is_some()).take(3).collect();
+                if ms.len() < 3 {
+                    return;
+                }
+                let (a, b, c) = (ms[0], ms[1], ms[2]);
+                for &m in &[a, b, c] {
+                    let pk = self.pkid(m);
+                    self.push(m, format!("sub {pk} - 1 {} 1", hex(b"$share/k/z/#")));
+                    self.sims[m].subs.push(("$share/k/z/#".into(), 1));
+                    self.signal(m);
+                }
+                self.run_to_idle();
+                if self.dead { return; }
+                let p = a;
+                // enough messages for every member to be offered more than a window
+                for round in 0..36 {
+                    for _ in 0..10 {
+                        self.seq += 1;
+                        self.push(p, format!("pub 0 0 0 0 {} {} - - 0", hex(b"z/x"), hex(format!("m{}", self.seq).as_bytes())));
+                    }
+                    self.signal(p);
+                    for _ in 0..40 {
+                        if self.op("consume".into()).starts_with('0') || self.dead { break; }
+                    }
+                    // a and b read and acknowledge, c only reads
+                    for &m in &[a, b] {
+                        while self.drain(m) {}
+                        self.ack(m, 1000);
+                        self.signal(m);
+                    }
+                    while self.drain(c) {}
+                    if self.dead { return; }
+                    let _ = round;
+                }
+                // a member other than c leaves the group
+                let leaver = if self.rng.chance(1, 2) { a } else { b };
+                let pk = self.pkid(leaver);
+                self.push(leaver, format!("unsub {pk} 1 {}", hex(b"$share/k/z/#")));
+                self.sims[leaver].subs.retain(|x| x.0 != "$share/k/z/#");
+                self.signal(leaver);
+                for _ in 0..6 {
+                    self.op("consume".into());
+                }
+                // now c acknowledges everything
+                self.ack(c, 1000);
+                self.signal(c);
+                self.run_to_idle();
+                self.st.tag("blocked-turn-holder");
             }
             14 => {
                 // accepted publishes and the connection's end handled in ONE device-data batch
